@@ -34,6 +34,8 @@ def handleFault (l : Line) : List Verdict :=
     let upauth ← l.get? "upauth"
     let contacted ← l.nat? "contacted"
     let granted ← l.nat? "granted"
+    let finalstatus ← l.nat? "finalstatus"
+    let finalexists ← l.bool? "finalexists"
     let persistent := fcount < 0
     let fl : Faults := {
       read := persistent && flabel == "GET session" && focc == 0 && handler != "frontchannel",
@@ -81,6 +83,8 @@ def handleFault (l : Line) : List Verdict :=
       (if transient && handler == "proxy" && !(fwd && wrote) then [("C11.transient_not_absorbed", s!"proxy: {fcount} failure(s) of '{flabel}': forwarded={fwd} token={upauth}")] else []) ++
       (if fkind == "idplost" && contacted > 1 then [("C07.token_presented_twice.lost_response", s!"the refresh token was sent {contacted} times: a grant whose answer was lost in transit was re-sent (only a server-error ANSWER may be retried)")] else []) ++
       (if isLogout && persistent && flabel == "GET session" && successStatus then [("C11.logout_fault_success.lookup", s!"{handler} answered {status} although the session lookup failed")] else []) ++
+      (if (handler == "logoutlocal" && finalstatus == 204 || handler == "logout" && finalstatus == 302) && finalexists && status == 307 then
+        [("C11.logout_fault_success.chain", s!"{handler}: the faulted request answered the retry redirect, the browser followed it and was told {finalstatus} (success) - but the session entry is still in the store")] else []) ++
       (if isLogout && persistent && flabel == "DEL session" && successStatus then [("C11.logout_fault_success.delete", s!"{handler} answered {status} although the delete failed")] else [])
     pure (verdictsOf diffs viol)
   r.getD [Verdict.bad "fault"]
